@@ -131,6 +131,38 @@ pub fn check_lifecycles(
         m
     };
     let ctx = || format!("route {} {} (sub-app {k})", route.methods.join("|"), route.full_path);
+    // ---- (C04) the recorded finding first, under its own signature: a middleware / observer registered in an
+    // ancestor blueprint receives what its own blueprint designates (its other symptoms, e.g. a second
+    // construction of a request-scoped value, would otherwise be reported under a generic signature)
+    if check_identity {
+        for x in &e {
+            if x.kind != "recv" {
+                continue;
+            }
+            let Some(t) = ty_of(x.v["ty"].as_str().unwrap_or("")) else { continue };
+            if spec.types[t].variants <= 1 {
+                continue;
+            }
+            let Some(want) = model::expected_by(spec, k, &route.scope, t) else { continue };
+            if x.v["by"].as_str() == Some(want.as_str()) {
+                continue;
+            }
+            let comp_idx = spec.comps.iter().enumerate().find(|(i, _)| comp_name(k, *i) == x.comp).map(|(i, _)| i);
+            if comp_idx.is_some_and(|c| c != route.handler && model::ancestor_registration_scopes(spec, c, &route.scope).iter().any(|a| model::expected_by(spec, k, a, t).as_deref() == x.v["by"].as_str())) {
+                return Err((
+                    "wrong-constructor:component-registered-in-an-ancestor-blueprint".into(),
+                    format!(
+                        "{}: {} (registered in an ancestor blueprint) received a {} built by {} but the blueprint of the route designates {} (nearest enclosing registration wins)",
+                        ctx(),
+                        x.comp,
+                        type_name(k, t),
+                        x.v["by"],
+                        want
+                    ),
+                ));
+            }
+        }
+    }
     // ---- constructions during the request
     let mut built_per_type: BTreeMap<usize, Vec<u64>> = BTreeMap::new();
     for x in &e {
@@ -276,7 +308,17 @@ pub fn check_lifecycles(
             let want = model::expected_by(spec, k, &route.scope, t);
             if let Some(want) = want {
                 if x.v["by"].as_str() != Some(want.as_str()) {
-                    let sig = if model::fallible_reregistered_after_infallible(spec, &route.scope, t) { "wrong-constructor:fallible-reregistered-after-infallible" } else { "wrong-constructor" };
+                    // (known finding: a middleware / observer registered in an ancestor blueprint gets what *its own*
+                    // blueprint designates, not what the route's blueprint designates)
+                    let comp_idx = spec.comps.iter().enumerate().find(|(i, _)| comp_name(k, *i) == x.comp).map(|(i, _)| i);
+                    let via_ancestor = comp_idx.is_some_and(|c| c != route.handler && model::ancestor_registration_scopes(spec, c, &route.scope).iter().any(|a| model::expected_by(spec, k, a, t).as_deref() == x.v["by"].as_str()));
+                    let sig = if via_ancestor {
+                        "wrong-constructor:component-registered-in-an-ancestor-blueprint"
+                    } else if model::fallible_reregistered_after_infallible(spec, &route.scope, t) {
+                        "wrong-constructor:fallible-reregistered-after-infallible"
+                    } else {
+                        "wrong-constructor"
+                    };
                     return Err((
                         sig.into(),
                         format!(
@@ -290,6 +332,41 @@ pub fn check_lifecycles(
                     ));
                 }
                 labels.push(format!("ctor-resolution:{}", if want.ends_with("_1") { "override" } else { "default" }));
+            }
+        }
+    }
+    // C04: generic wrappers are built by the constructor that the nearest enclosing blueprint designates
+    if check_identity {
+        for x in &e {
+            if x.kind != "recv" {
+                continue;
+            }
+            let ty = x.v["ty"].as_str().unwrap_or("");
+            let Some(kind) = (0..4u8).find(|kk| ty == format!("m{k}::G{}", crate::emit::GEN_KINDS[*kk as usize].0)) else { continue };
+            let Some(c) = spec.comps.iter().enumerate().find(|(i, _)| comp_name(k, *i) == x.comp).map(|(_, c)| c) else { continue };
+            let inners: Vec<usize> = c.gens.iter().filter(|(kk, _)| *kk % 4 == kind).map(|(_, i)| *i).collect();
+            if inners.len() != 1 {
+                continue;
+            }
+            if let Some(want) = model::expected_gen_by(spec, k, &route.scope, kind, inners[0]) {
+                if x.v["by"].as_str() != Some(want.as_str()) {
+                    let comp_idx = spec.comps.iter().enumerate().find(|(i, _)| comp_name(k, *i) == x.comp).map(|(i, _)| i);
+                    let via_ancestor = comp_idx.is_some_and(|c| c != route.handler && model::ancestor_registration_scopes(spec, c, &route.scope).iter().any(|a| model::expected_gen_by(spec, k, a, kind, inners[0]).as_deref() == x.v["by"].as_str()));
+                    return Err((
+                        if via_ancestor { "wrong-constructor:component-registered-in-an-ancestor-blueprint".into() } else { "wrong-constructor:generic-vs-concrete".into() },
+                        format!(
+                            "{}: {} received a G{}<T{}> built by {} but the blueprint designates {} (nearest enclosing registration that applies wins)",
+                            ctx(),
+                            x.comp,
+                            crate::emit::GEN_KINDS[kind as usize].0,
+                            inners[0],
+                            x.v["by"],
+                            want
+                        ),
+                    ));
+                }
+                let explicit = want.contains("::gc_");
+                labels.push(format!("generic-ctor-resolution:{}", if explicit { "concrete" } else { "generic" }));
             }
         }
     }
